@@ -55,7 +55,9 @@ func tRef(v, x float64) (want float64, ok bool) {
 func c05Judge(w *mon.W, c c05Case) {
 	mu, sigma, v := float64(c.Mu), float64(c.Sigma), float64(c.V)
 	xs := mon.Un(c.Xs)
-	one := func(x float64) c05Case { return c05Case{Op: c.Op, Mu: c.Mu, Sigma: c.Sigma, V: c.V, Xs: []mon.F{mon.F(x)}, Seed: c.Seed} }
+	one := func(x float64) c05Case {
+		return c05Case{Op: c.Op, Mu: c.Mu, Sigma: c.Sigma, V: c.V, Xs: []mon.F{mon.F(x)}, Seed: c.Seed}
+	}
 	switch c.Op {
 	case "norm-cdf-ref":
 		n := stats.NormalDist{Mu: mu, Sigma: sigma}
